@@ -16,6 +16,8 @@ TRACES_QUICK = 30
 
 TREE2 = [(0, 10), (0, 11), (1, 10), (1, 12), (2, 11)]
 TREE3 = [(0, 5, 10), (0, 5, 11), (0, 6, 10), (1, 5, 12), (1, 7, 10), (1, 7, 11)]
+TREEREG = [(o, i) for o in (0, 1) for i in (10, 11, 12)]   # regular: every subtree holds the same inner labels
+TREES = {'tree2': TREE2, 'tree3': TREE3, 'treereg': TREEREG}
 
 
 def _add(c):
@@ -91,7 +93,7 @@ def ref_select(tuples, preds, orders):
 
 
 def mk_hloc(tree_name, kinds, tier='quick', timeout=300):
-    tuples = TREE2 if tree_name == 'tree2' else TREE3
+    tuples = TREES[tree_name]
     depth = len(tuples[0])
 
     def body(env, **kw):
@@ -160,19 +162,23 @@ def _mk(env, tuples):
     return ih, s
 
 
-QUICK = [('label', 'all'), ('all', 'label'), ('list', 'all'), ('label', 'list'), ('slice', 'label'), ('all', 'slice'), ('list', 'list'), ('all', 'mask'), ('label', 'label')]
+# NOTE: a label slice at an inner depth is resolved inside each subtree; on a ragged tree an endpoint may be absent from a
+# subtree (the library then raises LocInvalid), so inner slices are exercised on the regular tree only.
+QUICK = [('label', 'all'), ('all', 'label'), ('list', 'all'), ('label', 'list'), ('slice', 'label'), ('list', 'list'), ('all', 'mask'), ('label', 'label')]
 for _k in QUICK:
     _add(mk_hloc('tree2', _k))
+_add(mk_hloc('treereg', ('all', 'slice')))
+_add(mk_hloc('treereg', ('list', 'slice')))
 _add(mk_hloc('tree3', ('label', 'all', 'label')))
 _add(mk_hloc('tree3', ('all', 'list', 'all')))
-_add(mk_hloc('tree3', ('slice', 'all', 'mask')))
+_add(mk_hloc('tree3', ('slice', 'all', 'mask'), timeout=600))
 for _k0 in ('label', 'list', 'slice', 'all'):
     for _k1 in ('label', 'list', 'slice', 'all', 'mask'):
-        c = mk_hloc('tree2', (_k0, _k1), tier='thorough', timeout=900)
+        c = mk_hloc('treereg' if _k1 == 'slice' else 'tree2', (_k0, _k1), tier='thorough', timeout=900)
         if c.name not in CONDS:
             _add(c)
         for _k2 in ('label', 'list', 'all', 'mask'):
-            if _k1 == 'mask':
+            if _k1 in ('mask', 'slice'):
                 continue
             c = mk_hloc('tree3', (_k0, _k1, _k2), tier='thorough', timeout=900)
             if c.name not in CONDS:
